@@ -270,6 +270,8 @@ def solve(equations, verbose=False):
                     raise SolveExceptionTooManySolutions("Sympy returned multiple possible solutions")
                 else:
                     solutions = next(iter(solutions))
+                    if any(v.is_number and not v.is_integer for v in solutions):
+                        raise SolveExceptionNoSolution("Sympy returned a non-integer solution")
                     solutions = {str(k): int(v) for k, v in zip(variables, solutions, strict=False) if v.is_number}
             else:
                 raise AssertionError("Sympy returned unexpected result")
